@@ -4,7 +4,8 @@ from approx import *
 THEOREMS = ["Parmcb.C06.c06_k0", "Parmcb.C06.c06_k1", "Parmcb.C06.c06_spanner_part", "Parmcb.C06.c06_edge_cycle",
             "Parmcb.C06.c06_bound", "Parmcb.C06.c06_bound_mcb", "Parmcb.C06.c06_bound_renumbered",
             "Parmcb.C05.c05_approx_signed_end_to_end", "Parmcb.C05.c05_approx_fvs_trees_end_to_end", "Parmcb.C05.c05_approx_iso_trees_end_to_end",
-            "Parmcb.C05.c06_k0_end_to_end", "Parmcb.C05.c06_k1_end_to_end", "Parmcb.C05.c06_dijkstra_path"]
+            "Parmcb.C05.c06_k0_end_to_end", "Parmcb.C05.c06_k1_end_to_end", "Parmcb.C05.c06_dijkstra_path",
+            "Parmcb.C02.c06_heap_dijkstra_is_oracle_run", "Parmcb.C02.c05_approx_signed_heap_end_to_end", "Parmcb.C02.c05_approx_fvs_trees_heap_end_to_end", "Parmcb.C02.c05_approx_iso_trees_heap_end_to_end"]
 def the_oracle(case, k, block, mu): return oracle_c06(case, k, block, mu)
 def run(tier, replay=None):
     return c05.run(tier, replay, pid="C06", theorems=THEOREMS, oracle=the_oracle, ks=(0, 1, 2, 3, 4, 7), need_mu=True, module="Parmcb")
